@@ -262,6 +262,31 @@ def invariance(ra, rb, motion):
     return Out(parts=parts, obs={"d": d1, "iou": i1})
 
 
+def scores_after_scaled_queries(ra, rb, scale):
+    """Matching scores of objects that were first asked for a *scaled* footprint / corners / point count (what the sensing
+    evaluation does) equal the scores of fresh, identical objects."""
+    ca = (0.0, 0.0, 0.0)
+    cb = (real("dx", -8, 8), real("dy", -8, 8), 0.0)
+    A, B = _obj("a", ca, ROTS[ra], SIZES["car"]), _obj("b", cb, ROTS[rb], SIZES["car"])
+    A2, B2 = _obj("a", ca, ROTS[ra], SIZES["car"]), _obj("b", cb, ROTS[rb], SIZES["car"])
+    s = float(Fraction(scale))
+    A.get_footprint(scale=s)
+    B.get_corners(scale=s)
+    A.get_footprint(scale=1.0)
+    used = [OM.IOU2dMatching(A, B).value, OM.IOU3dMatching(A, B).value, OM.PlaneDistanceMatching(A, B).value]
+    fresh = [OM.IOU2dMatching(A2, B2).value, OM.IOU3dMatching(A2, B2).value, OM.PlaneDistanceMatching(A2, B2).value]
+    (n1, d1), (n2, d2) = quotient(used[0]), quotient(fresh[0])
+    parts = {"bev_iou_unchanged": L.And(L.close(n1, n2, 1e-9), L.close(d1, d2, 1e-9)) if d1 is not 1 and d2 is not 1
+             else L.close(used[0], fresh[0], 1e-9),
+             "plane_distance_unchanged": L.close(used[2] ** 2, fresh[2] ** 2, 1e-9),
+             "area_unchanged": L.close(A.get_area_bev(), A2.get_area_bev(), 1e-12),
+             "identical_boxes_plane_distance_zero": L.close(OM.PlaneDistanceMatching(A, A2).value, 0, 1e-9)}
+    (m1, e1), (m2, e2) = quotient(used[1]), quotient(fresh[1])
+    parts["iou3d_unchanged"] = L.And(L.close(m1, m2, 1e-9), L.close(e1, e2, 1e-9)) if e1 is not 1 and e2 is not 1 \
+        else L.close(used[1], fresh[1], 1e-9)
+    return Out(parts=parts, obs={"iou": used[0], "pd": used[2]})
+
+
 def obligations(pid, tier):
     quick = tier == "quick"
     rots = list(ROTS)
@@ -288,6 +313,10 @@ def obligations(pid, tier):
                    desc="centre distance = Euclidean distance of centres (ROI centres with //2)"),
         Obligation("plane_distance", plane_distance, cases=pd,
                    desc="plane distance = RMS of corner distances of the ground truth's nearest-to-ego side"),
+        Obligation("scores_after_scaled_queries", scores_after_scaled_queries,
+                   cases=[dict(ra=a, rb=b, scale=sc) for (a, b) in ([("0", "37")] if quick else [("0", "37"), ("53", "-23")])
+                          for sc in ("3/2", "1/2")],
+                   desc="scores are not affected by earlier scaled footprint / corner queries on the same objects"),
         Obligation("invariance", invariance, cases=inv,
                    desc="scores invariant under a common rigid motion about the ego"),
     ]
